@@ -95,6 +95,15 @@ var targets = []target{
 	{file: "block/retriever.go", recv: "Manager", name: "processNextDAHeaderAndData", pre: true},
 	{file: "block/retriever.go", recv: "Manager", name: "processNextDAHeaderAndData", iter: true, ranges: true},
 	{file: "block/retriever.go", recv: "Manager", name: "fetchBlobs"},
+	{file: "block/reaper.go", recv: "Reaper", name: "SubmitTxs", ranges: true},
+	{file: "pkg/signer/file/local.go", recv: "FileSystemSigner", name: "saveKeys"},
+	{file: "pkg/signer/file/local.go", recv: "FileSystemSigner", name: "loadKeys"},
+	{file: "apps/testapp/kv/kvexecutor.go", recv: "KVExecutor", name: "ExecuteTxs", ranges: true},
+	{file: "block/submitter.go", recv: "Manager", name: "createSignedDataToSubmit", ranges: true},
+	{file: "block/store.go", recv: "Manager", name: "getHeadersFromHeaderStore", pre: true},
+	{file: "block/store.go", recv: "Manager", name: "getHeadersFromHeaderStore", iter: true},
+	{file: "block/store.go", recv: "Manager", name: "getDataFromDataStore", pre: true},
+	{file: "block/store.go", recv: "Manager", name: "getDataFromDataStore", iter: true},
 	{file: "block/store.go", recv: "Manager", name: "HeaderStoreRetrieveLoop", pre: true},
 	{file: "block/store.go", recv: "Manager", name: "HeaderStoreRetrieveLoop", iter: true, endless: true, ranges: true},
 	{file: "block/store.go", recv: "Manager", name: "DataStoreRetrieveLoop", pre: true},
@@ -196,7 +205,7 @@ func (t *tr) emitRanges(b *strings.Builder, tg target, key, ident, recv string, 
 			case *ast.Ident:
 				used[x.Name] = true
 			case *ast.ReturnStmt:
-				if len(x.Results) != 0 || !t.noResults {
+				if len(x.Results) != t.fnResults {
 					ok = false
 				}
 			case *ast.BranchStmt:
@@ -223,17 +232,28 @@ func (t *tr) emitRanges(b *strings.Builder, tg target, key, ident, recv string, 
 		if ok {
 			t.inRange = true
 			t.rangeRet = rangeReturns(rs)
+			t.rangeMuts = nil
+			for _, m := range rangeWrites(rs) {
+				t.rangeMuts = append(t.rangeMuts, "(EVar "+q(m)+")")
+			}
+			t.rangeGeneral = t.rangeRet && (len(t.rangeMuts) > 0 || !t.noResults)
 			saveE, saveB, saveC := t.inEndless, t.breakLocals, t.continueLocals
 			t.inEndless, t.breakLocals, t.continueLocals = false, "", ""
 			out = append(out, t.stmts(rs.Body.List)...)
 			t.inEndless, t.breakLocals, t.continueLocals = saveE, saveB, saveC
 			t.inRange = false
-			if t.rangeRet {
+			if t.rangeGeneral {
+				out = append(out, t.rangeExit(false, nil))
+			} else if len(t.rangeMuts) > 0 {
+				out = append(out, "(SReturn "+list(t.rangeMuts)+")")
+			} else if t.rangeRet {
 				out = append(out, "(SReturn [(EBool false)])")
 			} else {
 				out = append(out, "(SReturn [])")
 			}
 			t.rangeRet = false
+			t.rangeGeneral = false
+			t.rangeMuts = nil
 		} else {
 			out = append(out, "(SUnknown "+q("return / break / loop inside a range body")+")")
 		}
@@ -242,6 +262,84 @@ func (t *tr) emitRanges(b *strings.Builder, tg target, key, ident, recv string, 
 		table = append(table, "("+q(rkey)+", "+rid+")")
 	}
 	return table
+}
+
+// rangeWrites: the variables defined OUTSIDE the body of the range loop that the body assigns (x = e, x op= e, x++,
+// x[k] = e), in order of first appearance
+func rangeWrites(rs *ast.RangeStmt) []string {
+	local := map[string]bool{}
+	if id, ok := rs.Value.(*ast.Ident); ok {
+		local[id.Name] = true
+	}
+	ast.Inspect(rs.Body, func(n ast.Node) bool {
+		switch x := n.(type) {
+		case *ast.AssignStmt:
+			if x.Tok == token.DEFINE {
+				for _, l := range x.Lhs {
+					if id, ok := l.(*ast.Ident); ok {
+						local[id.Name] = true
+					}
+				}
+			}
+		case *ast.ValueSpec:
+			for _, nm := range x.Names {
+				local[nm.Name] = true
+			}
+		case *ast.RangeStmt:
+			for _, e := range []ast.Expr{x.Key, x.Value} {
+				if id, ok := e.(*ast.Ident); ok && x.Tok == token.DEFINE {
+					local[id.Name] = true
+				}
+			}
+		case *ast.FuncLit:
+			return false
+		}
+		return true
+	})
+	var out []string
+	seen := map[string]bool{}
+	add := func(e ast.Expr) {
+		if ix, ok := e.(*ast.IndexExpr); ok {
+			e = ix.X
+		}
+		if id, ok := e.(*ast.Ident); ok && id.Name != "_" && !local[id.Name] && !seen[id.Name] {
+			seen[id.Name] = true
+			out = append(out, id.Name)
+		}
+	}
+	ast.Inspect(rs.Body, func(n ast.Node) bool {
+		switch x := n.(type) {
+		case *ast.AssignStmt:
+			if x.Tok != token.DEFINE {
+				for _, l := range x.Lhs {
+					add(l)
+				}
+			}
+		case *ast.IncDecStmt:
+			add(x.X)
+		case *ast.FuncLit:
+			return false
+		}
+		return true
+	})
+	return out
+}
+
+// rangeExit: an exit of a range body in the general form: (left the function?, the variables it writes, the results)
+func (t *tr) rangeExit(left bool, results []string) string {
+	out := []string{"(EBool false)"}
+	if left {
+		out[0] = "(EBool true)"
+	}
+	out = append(out, t.rangeMuts...)
+	if left {
+		out = append(out, results...)
+	} else {
+		for i := 0; i < t.fnResults; i++ {
+			out = append(out, "ENil")
+		}
+	}
+	return "(SReturn " + list(out) + ")"
 }
 
 // rangeReturns: the body of the range loop contains a `return`
@@ -273,6 +371,9 @@ type tr struct {
 	rangeRet bool               // ... whose `return` leaves the enclosing function: the body function answers true for it, false otherwise
 	continueLocals string       // inside a top-level endless loop translated as one iteration with locals: what `continue` becomes
 	noResults bool              // the function being translated has no results
+	fnResults int               // ... the number of its results
+	rangeGeneral bool           // inside a range body in the general form: exits are (left?, writes, results)
+	rangeMuts []string          // inside a range body: the outer variables it writes; every exit returns their values
 	rangeBodies []*ast.RangeStmt
 }
 
@@ -734,6 +835,28 @@ func (t *tr) stmt(s ast.Stmt) string {
 		}
 		return "(SUnknown " + q("defer "+text(x)) + ")"
 	case *ast.AssignStmt:
+		// m[k] = struct{}{} on a set (map[K]struct{}) held in a variable: the variable becomes the set with k added
+		if len(x.Lhs) == 1 && len(x.Rhs) == 1 && x.Tok == token.ASSIGN {
+			if ix, ok := x.Lhs[0].(*ast.IndexExpr); ok {
+				if id, ok := ix.X.(*ast.Ident); ok && text(x.Rhs[0]) == "struct{}{}" {
+					return "(SAssign [" + q(id.Name) + "] (ECall " + q("$set_add") + " [(EVar " + q(id.Name) + "); " + t.expr(ix.Index) + "]))"
+				}
+				// a[i] = v on a slice held in a variable: the variable becomes the slice with element i replaced
+				if id, ok := ix.X.(*ast.Ident); ok {
+					return "(SAssign [" + q(id.Name) + "] (ECall " + q("$index_set") + " [(EVar " + q(id.Name) + "); " + t.expr(ix.Index) + "; " + t.expr(x.Rhs[0]) + "]))"
+				}
+			}
+		}
+		// _, ok := m[k]: membership in a map held in a variable
+		if len(x.Lhs) == 2 && len(x.Rhs) == 1 && x.Tok == token.DEFINE {
+			if ix, ok := x.Rhs[0].(*ast.IndexExpr); ok {
+				if id, ok := ix.X.(*ast.Ident); ok && text(x.Lhs[0]) == "_" {
+					if okv, isId := x.Lhs[1].(*ast.Ident); isId {
+						return "(SAssign [" + q(okv.Name) + "] (ECall " + q("$set_has") + " [(EVar " + q(id.Name) + "); " + t.expr(ix.Index) + "]))"
+					}
+				}
+			}
+		}
 		if len(x.Lhs) == 1 && len(x.Rhs) == 1 && x.Tok == token.ASSIGN {
 			if sel, ok := x.Lhs[0].(*ast.SelectorExpr); ok {
 				if id, ok := sel.X.(*ast.Ident); ok {
@@ -770,6 +893,17 @@ func (t *tr) stmt(s ast.Stmt) string {
 		if as, ok := x.Init.(*ast.AssignStmt); ok && len(as.Rhs) == 1 {
 			if ta, ok := as.Rhs[0].(*ast.TypeAssertExpr); ok && ta.Type != nil && strings.Contains(text(ta.Type), "Metrics") {
 				return "(SSkip " + q("metrics") + ")"
+			}
+		}
+		// `if _, err := rand.Read(buf); err != nil` / `io.ReadFull(rand.Reader, buf)`: the call FILLS its last argument: the
+		// variable is re-bound to the first answer of the (scripted) call, so that later uses name what was drawn
+		if as, ok := x.Init.(*ast.AssignStmt); ok && as.Tok == token.DEFINE && len(as.Lhs) == 2 && len(as.Rhs) == 1 && text(as.Lhs[0]) == "_" {
+			if c, ok := as.Rhs[0].(*ast.CallExpr); ok && (text(c.Fun) == "rand.Read" || text(c.Fun) == "io.ReadFull") && len(c.Args) >= 1 {
+				if buf, ok := c.Args[len(c.Args)-1].(*ast.Ident); ok && x.Else == nil {
+					if ev, ok := as.Lhs[1].(*ast.Ident); ok {
+						return "(SIf [(SAssign [" + q(buf.Name) + "; " + q(ev.Name) + "] " + t.expr(c) + ")] " + t.expr(x.Cond) + " " + t.block(x.Body) + " [])"
+					}
+				}
 			}
 		}
 		// a call with an effect in unconditional position of the condition (`if !x.CompareAndSwap(a, b)`) is
@@ -987,6 +1121,12 @@ func (t *tr) stmt(s ast.Stmt) string {
 			return t.breakLocals
 		}
 		if x.Tok == token.CONTINUE && x.Label == nil && t.inRange {
+			if t.rangeGeneral {
+				return t.rangeExit(false, nil)
+			}
+			if len(t.rangeMuts) > 0 {
+				return "(SReturn " + list(t.rangeMuts) + ")"
+			}
 			if t.rangeRet {
 				return "(SReturn [(EBool false)])"
 			}
@@ -1004,6 +1144,33 @@ func (t *tr) stmt(s ast.Stmt) string {
 			if _, ok := x.Value.(*ast.Ident); ok {
 				t.rangeBodies = append(t.rangeBodies, x)
 				name := fmt.Sprintf("$range%d", len(t.rangeBodies))
+				if muts := rangeWrites(x); rangeReturns(x) && (len(muts) > 0 || !t.noResults) {
+					// the general form: the walk answers (left?, the new values of the variables it writes, the values
+					// returned if it left the function)
+					n := len(t.rangeBodies)
+					ls := []string{q(fmt.Sprintf("$rg%d", n))}
+					as := []string{}
+					for _, m := range muts {
+						ls = append(ls, q(m))
+						as = append(as, "(EVar "+q(m)+")")
+					}
+					var rv []string
+					for i := 0; i < t.fnResults; i++ {
+						v := fmt.Sprintf("$rv%d_%d", n, i+1)
+						ls = append(ls, q(v))
+						rv = append(rv, "(EVar "+q(v)+")")
+					}
+					return fmt.Sprintf("(SIf [(SAssign %s (ECall %s (%s :: %s)))] (EVar %s) [(SReturn %s)] [])",
+						list(ls), q(name), t.expr(x.X), list(as), q(fmt.Sprintf("$rg%d", n)), list(rv))
+				} else if len(muts) > 0 {
+					// the body writes variables of the function: the walk is a state transformer over them
+					var ls, as []string
+					for _, m := range muts {
+						ls = append(ls, q(m))
+						as = append(as, "(EVar "+q(m)+")")
+					}
+					return fmt.Sprintf("(SAssign %s (ECall %s (%s :: %s)))", list(ls), q(name), t.expr(x.X), list(as))
+				}
 				if rangeReturns(x) && t.noResults {
 					// a `return` in the body leaves the function: the walk answers whether that happened
 					tmp := fmt.Sprintf("$rg%d", len(t.rangeBodies))
@@ -1016,6 +1183,16 @@ func (t *tr) stmt(s ast.Stmt) string {
 	case *ast.ForStmt:
 		return "(SUnknown " + q("loop") + ")"
 	case *ast.ReturnStmt:
+		if t.inRange && t.rangeGeneral {
+			if len(x.Results) != t.fnResults {
+				return "(SUnknown " + q("return of a call with several results inside a range body") + ")"
+			}
+			var rs []string
+			for _, r := range x.Results {
+				rs = append(rs, t.expr(r))
+			}
+			return t.rangeExit(true, rs)
+		}
 		if t.inRange && t.rangeRet && len(x.Results) == 0 {
 			return "(SReturn [(EBool true)])"
 		}
@@ -1150,6 +1327,16 @@ func main() {
 			continue
 		}
 		t.noResults = fd.Type.Results == nil || len(fd.Type.Results.List) == 0
+		t.fnResults = 0
+		if fd.Type.Results != nil {
+			for _, r := range fd.Type.Results.List {
+				if len(r.Names) == 0 {
+					t.fnResults++
+				} else {
+					t.fnResults += len(r.Names)
+				}
+			}
+		}
 		recv := "None"
 		if fd.Recv != nil && len(fd.Recv.List) == 1 && len(fd.Recv.List[0].Names) == 1 {
 			recv = "(Some " + q(fd.Recv.List[0].Names[0].Name) + ")"
